@@ -799,6 +799,73 @@ package leveldb
 //@   safety off
 //@   ensures [C07:a-finished-compaction-gives-its-version-back-once] (!old(c.released) ==> calls("(*version).release") == old(calls("(*version).release")) + 1) && (old(c.released) ==> calls("(*version).release") == old(calls("(*version).release"))) && c.released
 
+// Running a compaction ends with its release, whatever path it takes.
+//@ count (*compaction).release
+//@ func (*DB).tableCompaction
+//@   props C07
+//@   safety off
+//@   ensures [C07:a-compaction-that-was-run-is-released] calls("(*compaction).release") >= old(calls("(*compaction).release")) + 1
+//@ func (*DB).tableAutoCompaction
+//@   props C07
+//@   safety off
+//@   ensures [C07:every-compaction-picked-is-run-to-its-release] calls("(*session).pickCompaction") == old(calls("(*session).pickCompaction")) || calls("(*compaction).release") >= old(calls("(*compaction).release")) + 1 || gPickedNil
+//@   at call (*session).pickCompaction#1
+//@     ghost gPickedNil = (result == nil)
+//@ ghost var gPickedNil bool
+//@ count (*session).pickCompaction
+// ... and everybody else who looks at the current version gives the reference back before returning.
+//@ count (*session).version
+// (a table lookup works on table readers and the block cache, which know nothing of versions: that the release
+// callbacks it may run through interface values are not version releases is assumed)
+//@ func (*version).get
+//@   props C07
+//@   safety off
+//@   assumes [C07:table-lookups-take-and-give-no-version-reference] calls("(*version).release") == old(calls("(*version).release")) && calls("(*session).version") == old(calls("(*session).version"))
+//@ func (*version).sampleSeek
+//@   props C07
+//@   safety off
+//@   assumes [C07:table-lookups-take-and-give-no-version-reference] calls("(*version).release") == old(calls("(*version).release")) && calls("(*session).version") == old(calls("(*session).version"))
+//@ func (*DB).get
+//@   props C07
+//@   safety off
+//@   ensures [C07:version-reference-given-back] calls("(*version).release") - old(calls("(*version).release")) == calls("(*session).version") - old(calls("(*session).version"))
+//@ func (*DB).has
+//@   props C07
+//@   safety off
+//@   ensures [C07:version-reference-given-back] calls("(*version).release") - old(calls("(*version).release")) == calls("(*session).version") - old(calls("(*session).version"))
+//@ func (*DB).GetProperty
+//@   props C07
+//@   safety off
+//@   ensures [C07:version-reference-given-back] calls("(*version).release") - old(calls("(*version).release")) == calls("(*session).version") - old(calls("(*session).version"))
+//@ func (*DB).Stats
+//@   props C07
+//@   safety off
+//@   ensures [C07:version-reference-given-back] calls("(*version).release") - old(calls("(*version).release")) == calls("(*session).version") - old(calls("(*session).version"))
+//@ func (*DB).SizeOf
+//@   props C07
+//@   safety off
+//@   ensures [C07:version-reference-given-back] calls("(*version).release") - old(calls("(*version).release")) == calls("(*session).version") - old(calls("(*session).version"))
+//@ func (*DB).tableNeedCompaction
+//@   props C07
+//@   safety off
+//@   ensures [C07:version-reference-given-back] calls("(*version).release") - old(calls("(*version).release")) == calls("(*session).version") - old(calls("(*session).version"))
+//@ func (*DB).resumeWrite
+//@   props C07
+//@   safety off
+//@   ensures [C07:version-reference-given-back] calls("(*version).release") - old(calls("(*version).release")) == calls("(*session).version") - old(calls("(*session).version"))
+//@ func (*DB).sampleSeek
+//@   props C07
+//@   safety off
+//@   ensures [C07:version-reference-given-back] calls("(*version).release") - old(calls("(*version).release")) == calls("(*session).version") - old(calls("(*session).version"))
+//@ func (*DB).checkAndCleanFiles
+//@   props C07
+//@   safety off
+//@   ensures [C07:version-reference-given-back] calls("(*version).release") - old(calls("(*version).release")) == calls("(*session).version") - old(calls("(*session).version"))
+//@ func (*session).pickMemdbLevel
+//@   props C07
+//@   safety off
+//@   ensures [C07:version-reference-given-back] calls("(*version).release") - old(calls("(*version).release")) == calls("(*session).version") - old(calls("(*session).version"))
+
 // C01 / C03 / C06: a deletion marker may be dropped only when no deeper level can still hold an older entry for its
 // user key. "Base level" must therefore mean: no table of any level below the compaction's output level has the
 // key inside its range. The per-level cursors only move forward; that the tables they have passed lie wholly before
